@@ -2,7 +2,7 @@
   A model of CPython 3.12's `argparse.ArgumentParser.parse_known_args`, for parsers of the shape the
   seven tools build: options that take no value (`store_true`, `store_const`, `help`) or exactly one
   (`nargs=None`, `type` str or int), one optional required exclusive group of constant-storing
-  options, positionals with `nargs=None` and `nargs='*'`, prefix character '-', no abbreviations
+  options, positionals with `nargs=None`, `nargs='*'` and `nargs='+'`, prefix character '-', no abbreviations
   unless `allow_abbrev`.  The parser description is `Gen.Cli.Tool`, regenerated from the source.
   The function mirrors `_parse_known_args` step by step: classification of every argument string
   (`_parse_optional`, `_get_option_tuples`), the alternation of `consume_positionals` /
@@ -190,7 +190,7 @@ def removeFirstDD : List Str → List Str
 /-- the value `_get_values` builds and the action stores -/
 def valueOf (a : Action) (args : List Str) : Option Val :=
   if a.nargs == 0 then some (if a.const.isEmpty then .bool true else .str a.const)
-  else if a.nargs == 2 then some (.list (removeFirstDD args))
+  else if a.nargs == 2 || a.nargs == 4 then some (.list (removeFirstDD args))
   else
     match removeFirstDD args with
     | [s] => if a.isInt then (pyInt s).map .int else some (.str s)
@@ -262,6 +262,14 @@ def matchSlice : List Action → List Tok → Option (List Nat)
         let d2 := (r.takeWhile Tok.isDD).length
         (matchSlice more (r.drop d2)).map ((d1 + 1 + d2) :: ·)
       | _ => none
+    else if a.nargs == 4 then
+      -- `(-*A[A-]*)`: at least one string
+      let d1 := (toks.takeWhile Tok.isDD).length
+      match toks.drop d1 with
+      | .arg _ :: r =>
+        let n := (r.takeWhile (fun k => k.isDD || k.isArg)).length
+        (matchSlice more (r.drop n)).map ((d1 + 1 + n) :: ·)
+      | _ => none
     else
       let n := (toks.takeWhile (fun k => k.isDD || k.isArg)).length
       (matchSlice more (toks.drop n)).map (n :: ·)
@@ -295,7 +303,7 @@ def consumePos (st : St) (toks : List Tok) : Except Stop (St × Nat) :=
 
 /-- the required tests at the end of `_parse_known_args` -/
 def finish (t : Tool) (st : St) : Out :=
-  if (t.actions.any (fun a => a.nargs == 3 && !st.seen.contains a.dest)) then .error
+  if (t.actions.any (fun a => (a.nargs == 3 || a.nargs == 4) && !st.seen.contains a.dest)) then .error
   else if t.groupRequired && st.group.isNone then .error
   else .ok st.ns st.extras
 
@@ -375,7 +383,7 @@ def cliParse (t : Tool) (argv : List Str) : Out :=
     another positional -/
 def wellShaped (t : Tool) : Bool :=
   let pos := t.actions.filter (fun a => a.opts.isEmpty)
-  (pos.dropLast.all (fun a => a.nargs == 3)) && pos.all (fun a => a.nargs == 2 || a.nargs == 3) &&
+  (pos.dropLast.all (fun a => a.nargs == 3)) && pos.all (fun a => a.nargs == 2 || a.nargs == 3 || a.nargs == 4) &&
     (t.actions.all (fun a => a.opts.isEmpty || a.nargs == 0 || a.nargs == 1))
 
 end Moto.Argparse
